@@ -497,11 +497,16 @@ pub fn matmul_scale(r: &mut Rng, k: usize) -> CaseD {
     let mut b = B::new();
     let a = b.input_f("a", fx(&ashape.iter().map(|x| *x as i64).collect::<Vec<_>>()));
     let bb = b.input_f("b", fx(&bshape.iter().map(|x| *x as i64).collect::<Vec<_>>()));
-    let place = 1 + r.below(7); // bit 0: lhs, bit 1: rhs, bit 2: output
-    let scaled = |b: &mut B, v: &str, r: &mut Rng| -> String {
-        let val = *r.pick(&[2.0f32, 0.5, 4.0, 1.0, 0.25]);
+    // placement, operator form and factor cycle with k (and the position of the scaling node) so that
+    // every form (x / c, c * x, x * c) occurs with every constant shape within a few programs
+    let place = 1 + (k + k / 7) % 7; // bit 0: lhs, bit 1: rhs, bit 2: output
+    let nth = std::cell::Cell::new(0usize);
+    let scaled = |b: &mut B, v: &str, _r: &mut Rng| -> String {
+        let j = nth.get();
+        nth.set(j + 1);
+        let val = [2.0f32, 0.5, 4.0, 0.25, 1.0][(k / 3 + j) % 5];
         let c = b.cs(cshape, val);
-        match r.below(3) {
+        match (k + j) % 3 {
             0 => b.op("Div", &[v, &c]),
             1 => b.op("Mul", &[&c, v]),
             _ => b.op("Mul", &[v, &c]),
